@@ -44,7 +44,7 @@ def pick(rng, n, want_log=0.7):
 
 MULTI = ["é", "ß", "日本", "𝔘", "ü", "Ж", "‎", " ", "𐍈", "é"]
 SNIPPETS = [
-    'info!("x");', 'été!("x")', 'é!("msg")', 'warn!("日本 {}", a);', 'info!(ref = x; "m")', 'error!(target: "t", "m")',
+    'info!("x");', 'info!("");', 'warn!("", a);', 'error!(target: "t", "");', 'info!(k = 1; "");', 'été!("x")', 'é!("msg")', 'warn!("日本 {}", a);', 'info!(ref = x; "m")', 'error!(target: "t", "m")',
     'info!(k = "v;,"; "m")', 'log::info!("', 'info!(', '"', '\\"', '/*', '*/', '//', 'info!(a = 1, b:? = c; "z")',
     'info!("[ref: 99999999999] m")', 'info!("[ref: ] m")', 'info!(ref = 1, ref = 2; "m")', 'Ж_й::info!("m")', '𝔘!("m")',
     'info!("[ref: 4294967296] m")', 'warn!("[ref: 9999999999] m")', 'info!(ref = 4294967296; "m")', 'info!(ref = 99999999999999999999; "m")',
